@@ -152,8 +152,8 @@ theorem insert_valid (p : Params K) (pv : p.Valid) (t : Tree K V) (ht : TreeInv 
       rw [hr] at hres
       simp only at hres
       have hpos := insertDescend_valid p k v h0 r0 1 1 hs r hr
-      have hshp := insertDescend_shape p pv k v h0 r0 1 1 (by have := pv.leaf4; simp [Params.leafMin]; omega)
-        (by have := pv.inner4; simp [Params.innerMin]; omega) hs r hr
+      have hshp := insertDescend_shape p pv k v h0 r0 1 1 (by have := pv.leaf4; simp [Params.leafMin, Gen.leafSlotmin]; omega)
+        (by have := pv.inner4; simp [Params.innerMin, Gen.innerSlotmin]; omega) hs r hr
       cases hsp : r.split with
       | none =>
         rw [hsp] at hres hpos
